@@ -20,6 +20,7 @@ import (
 	"runtime"
 	"sort"
 	"strconv"
+	"strings"
 	"sync"
 	"testing/synctest"
 
@@ -114,7 +115,7 @@ func (s *sched) quiesce() {
 			if s.bubble != "" && bubbleTag(state) != s.bubble {
 				continue
 			}
-			if bytes.HasPrefix(m[2], []byte("running")) || bytes.HasPrefix(m[2], []byte("runnable")) || bytes.HasPrefix(m[2], []byte("syscall")) {
+			if !blockedState(state) {
 				busy = true
 				break
 			}
@@ -126,6 +127,18 @@ func (s *sched) quiesce() {
 			panic("sched: system does not quiesce")
 		}
 	}
+}
+
+// blockedState reports whether a goroutine in this wait state can only be woken by another goroutine (or a
+// timer of the bubble's fake clock) - everything else (running, runnable, syscall, preempted, GC assist wait,
+// stack copying, ...) counts as "still going to do something by itself".
+func blockedState(state string) bool {
+	for _, p := range []string{"chan receive", "chan send", "select", "sync.Mutex.Lock", "sync.RWMutex", "sync.WaitGroup.Wait", "sync.Cond.Wait", "semacquire", "sleep", "synctest.Run", "synctest.Wait", "IO wait", "finalizer wait"} {
+		if strings.HasPrefix(state, p) {
+			return true
+		}
+	}
+	return false
 }
 
 // run executes the task functions under the control of draws from rt. It
@@ -156,6 +169,20 @@ func (s *sched) runWith(pickFn func(parked []*parkedTask) int, names []string, f
 		if len(ps) == 0 {
 			if s.allDone() {
 				break
+			}
+			// be sure before calling it a deadlock: a task may be between two states the snapshot cannot tell apart
+			stuck := true
+			for retry := 0; retry < 300 && stuck; retry++ {
+				for i := 0; i < 50; i++ {
+					runtime.Gosched()
+				}
+				s.quiesce()
+				if len(s.parkedList()) > 0 || s.allDone() {
+					stuck = false
+				}
+			}
+			if !stuck {
+				continue
 			}
 			panic(fmt.Sprintf("sched: deadlock: %d of %d tasks finished, none parked; trace %v", s.numDone(), len(fns), s.trace))
 		}
